@@ -27,7 +27,7 @@ Print Assumptions C07_extract_pair_bound.
 
 (* ---- the real MSZIP port (Model/Mszip.v: zcall = mszipd_decompress, zframe = 'CK' search + inflate), tied to mszipd.c by the
         decoder-level correspondence: no abstraction of the per-frame decoder here ---- *)
-From MSP Require Import Base.Src Model.Mszip Proofs.MszipClean Proofs.MszipAcct.
+From MSP Require Import Base.Src Model.Mszip Proofs.MszipClean Proofs.MszipAcct Proofs.NoWrite.
 (* the frame decoder never calls write, whatever the input *)
 Theorem C07_mszip_frame_decoder_only_reads : forall rule hint st s r s',
   ideal rule hint (zframe st) s = (r, s') -> iout s' = iout s.
@@ -42,3 +42,29 @@ Theorem C07_mszip_port_accounting : forall rule hint n z i r i1, zo z <= zend z 
 Proof. exact zcall_acct. Qed.
 Print Assumptions C07_mszip_port_accounting.
 Example C07_mszip_init_state : zo zinit <= zend zinit. Proof. vm_compute. discriminate. Qed.
+
+(* ---- the real LZX port (Model/Lzx.v: decompress = lzxd_decompress, lzx_call = one call with its sticky error, lzx_run = a whole
+        sequence of calls from lzxd_init), tied to lzxd.c by the decoder-level correspondence ---- *)
+From MSP Require Import Model.Lzx Proofs.NoWrite Proofs.LzxClean Proofs.LzxAcct Props.OabSample.
+(* everything between two writes of a frame (reset, block headers, code lengths and tables, the symbol loop, realignment) only reads *)
+Theorem C07_lzx_block_decoder_only_reads : forall rule hint fuel todo st s r s',
+  ideal rule hint (todo_loop fuel todo st) s = (r, s') -> iout s' = iout s.
+Proof. intros rule hint fuel todo st s r s' H. exact (proj1 (nowrite_run _ rule hint _ (nwm_todo_loop fuel todo st) _ _ _ H)). Qed.
+Print Assumptions C07_lzx_block_decoder_only_reads.
+(* a call asked for n bytes on any stream state (no invariant needed), any input, any output-length hint: never more than n written
+   whatever the outcome (OK, DECRUNCH, sticky error, end of input); exactly n when it returns 0 *)
+Theorem C07_lzx_port_accounting : forall hint s i n st s' i', lzx_call hint s i n = (st, s', i') ->
+  olen i <= olen i' /\ olen i' <= olen i + n /\ (st = 0 -> olen i' = olen i + n).
+Proof. exact lzx_call_acct. Qed.
+Print Assumptions C07_lzx_port_accounting.
+(* a whole sequence of calls from lzxd_init *)
+Theorem C07_lzx_stream_accounting : forall wb ri outlen delta ref inp reqs sts out, lzx_run wb ri outlen delta ref inp reqs = (sts, out) ->
+  length sts = length reqs /\ N.of_nat (length out) <= sumN reqs /\ (Forall (fun st => st = 0) sts -> N.of_nat (length out) = sumN reqs).
+Proof. exact lzx_run_acct. Qed.
+Print Assumptions C07_lzx_stream_accounting.
+(* non-vacuity: a generated stream decoded in three calls says OK three times (and a fourth call past the end does not) *)
+Import ListNotations.
+Example C07_lzx_sample : let n := N.of_nat (length s_data) in
+  lzx_run 17 0 n true [] (s_stream ++ s_pad) [10; 1; n - 11] = ([0; 0; 0], s_data) /\
+  fst (lzx_run 17 0 n true [] (s_stream ++ s_pad) [n; 5]) <> [0; 0].
+Proof. split; [vm_compute; reflexivity|vm_compute; discriminate]. Qed.
